@@ -65,7 +65,7 @@ CHECKS.update({
     "C18": dict(
         level="model_checking", ref="5 (C18), 3.3",
         technique="TLC: RegistryMC.tla - the module loop and the file loop of registry.py refine the selection algebra / one-searcher-per-non-empty-file spec for every include/exclude pair over 3 modules (+ an unknown name), every enumeration order, every pair of small keyword files (LF/CRLF/CR, blanks, duplicates); RegistryTrace.tla re-derives what the real build_registry / get_analyzers / get_keywords returned",
-        text="Ground truth for 'marked' is an ast scan of decoders/*.py. TLC recomputes, from the raw bytes of every keyword file (SplitLines is specified in TLA+) and from the include/exclude lists, the exact set of functions and searchers and compares with the registry the implementation built: default registry (also as seen by Multidecoder()), all singleton include/exclude choices, random subsets incl. unknown names and generator arguments, generated directory trees.",
+        text="Ground truth for 'marked' is an ast scan of decoders/*.py. TLC recomputes, from the raw bytes of every keyword file (SplitLines is specified in TLA+) and from the include/exclude lists, the exact set of functions and searchers and compares with the registry the implementation built: default registry (also as seen by Multidecoder()), all singleton include/exclude choices, random subsets incl. unknown / partial names and generator arguments, generated directory trees. 31 behavioural probes (one input per shipped decoder function and one keyword list) check through the default scanner that each decoder is really applied (a removed registration mark is caught even though the ast ground truth moves with it).",
     ),
 })
 
